@@ -779,14 +779,7 @@ static int parse_msr(
   {
     if (operands[1].type == OPERAND_REG)
     {
-      //ps = operands[0].value;
-      add_bin32(asm_context, opcode | (operands[1].value << 12), IS_OPCODE);
-      return 4;
-    }
-      else
-    if (operands[1].type == OPERAND_REG)
-    {
-      //ps = operands[0].value;
+      // Rm is in bits 3..0 (bits 15..12 are all ones in the opcode).
       add_bin32(asm_context, opcode | (operands[1].value), IS_OPCODE);
       return 4;
     }
@@ -896,7 +889,8 @@ static int parse_multiply(
     return ARM_ILLEGAL_OPERANDS;
   }
 
-  add_bin32(asm_context, MUL_OPCODE | (cond<<28) | (s<<20) | (operands[0].value<<16) | (operands[1].value) | (operands[2].value<<8) | (rn<<12), IS_OPCODE);
+  // opcode carries the accumulate bit for mla.
+  add_bin32(asm_context, opcode | (cond<<28) | (s<<20) | (operands[0].value<<16) | (operands[1].value) | (operands[2].value<<8) | (rn<<12), IS_OPCODE);
 
   return 4;
 }
